@@ -12,6 +12,7 @@ orders (`TxMode`), every window `W ≥ 1`; start-up: every old chain and every n
 import BtcwVerif.Lemmas.SyncTipEvolve
 import BtcwVerif.Lemmas.SyncTipStartup
 import BtcwVerif.Lemmas.SyncTipCompose
+import BtcwVerif.Lemmas.SyncTipNotify
 namespace SyncTip
 
 /-- Chains are lists with parent links: the same hash at height `h` means the same chain below `h`. -/
@@ -237,5 +238,89 @@ example : (evolve cfg2 ((startup cfg2 3 1 wOld2 [5, 4, 1]).1, [5, 4, 1]) [.reorg
         subst this; decide⟩
       subst this
       exact .cons ⟨by decide, by decide⟩ (.nil _ _))).2
+
+/-! ### The wallet's own notification stream (`wallet.NtfnServer`, `TransactionNotifications`)
+
+`evolveN` runs the evolution with the modelled `NotificationServer` (`NSrv`: `currentTxNtfn` + what was delivered to
+the registered client) next to the wallet; `runEvents` are the `notifyAttachedBlock` / `notifyDetachedBlock` calls
+`connectBlock` / `disconnectBlock` make on the way (`blockEvents`); `replayEv` is a client applying them: attached
+= the tip again or a child of the tip (push), detached = the current tip (pop) or a block that is not on the chain
+(ignored); anything else fails the replay. -/
+
+/-- **The notifications follow the backend.**  Over any valid evolution from a wallet in sync:
+    (1) the server does not influence the wallet (`evolveN` projects onto `evolve`);
+    (2) replaying the attach/detach calls on the initial tip yields the final tip — in particular every detached block
+        that is on the client's chain is its then-current tip, every attached block is a child of the then-current tip
+        or the tip again;
+    (3) the detached hashes the server delivered or holds pending are exactly the `notifyDetachedBlock` calls, in
+        order (coalescing drops, duplicates, reorders nothing). -/
+theorem C15_notifications_follow_backend (cfg : Cfg) (hW : 1 ≤ cfg.W) {w : Wallet} {tip : BlockId} {lo : Nat}
+    {steps : List Step} {tip' : BlockId} {lo' : Nat} (hI : Inv cfg w tip lo)
+    (hr : ValidRun cfg.W tip lo steps tip' lo') (s : NSrv) :
+    ((evolveN cfg ((w, s), tip) steps).1.1, (evolveN cfg ((w, s), tip) steps).2) = evolve cfg (w, tip) steps ∧
+    replayEv tip (runEvents cfg (w, tip) steps) = some tip' ∧
+    (evolveN cfg ((w, s), tip) steps).1.2.allDetached = s.allDetached ++ detachedOf (runEvents cfg (w, tip) steps) := by
+  refine ⟨evolveN_proj cfg steps (w, s) tip, ?_, evolveN_detached cfg steps (w, s) tip⟩
+  have := replay_run cfg hW hI hr []
+  simpa [replayEv] using this
+
+/-- What exactly the code emits for the notifications that do not move the tip: a disconnect for a block that is not on
+    the best chain makes no call (no hash remembered at its height ⇒ the handler errors) or one `detached` call for
+    that block — which a client ignores because the block is not on its chain; a repeated connect of the tip makes no
+    call (predecessor not remembered) or one `attached(tip)` call; transaction notifications make none. -/
+theorem C15_notifications_stale_and_repeated (cfg : Cfg) (w : Wallet) (tip : BlockId) :
+    (∀ b : BlockId, ancestorAt tip b.length ≠ b →
+      (blockEvents cfg w (.disconnected (stampOf cfg.C b)) = [] ∨
+       blockEvents cfg w (.disconnected (stampOf cfg.C b)) = [.detached (some b)]) ∧
+      ∀ rest, replayEv tip (blockEvents cfg w (.disconnected (stampOf cfg.C b)) ++ rest) = replayEv tip rest) ∧
+    ((blockEvents cfg w (.connected (stampOf cfg.C tip)) = [] ∨
+      blockEvents cfg w (.connected (stampOf cfg.C tip)) = [.attached (stampOf cfg.C tip)]) ∧
+      ∀ rest, replayEv tip (blockEvents cfg w (.connected (stampOf cfg.C tip)) ++ rest) = replayEv tip rest) ∧
+    (∀ t blk, blockEvents cfg w (.relevantTx t blk) = []) ∧ (∀ b ts, blockEvents cfg w (.filtered b ts) = []) := by
+  refine ⟨fun b hb => ⟨?_, replay_stale tip b hb⟩, ⟨?_, replay_dupConnect tip⟩, fun _ _ => rfl, fun _ _ => rfl⟩
+  · simp only [blockEvents]
+    split
+    · exact Or.inl rfl
+    · split
+      · exact Or.inr rfl
+      · exact Or.inl rfl
+  · simp only [blockEvents]
+    split
+    · exact Or.inr rfl
+    · exact Or.inl rfl
+
+/-- Delivery: a `notifyAttachedBlock(b)` call leaves `b` as the last attached block of the notification it delivers —
+    or of the pending one, held back exactly while the wallet is chain-synced and the notification does not hold more
+    attached than detached blocks. -/
+theorem C15_notifications_attached_delivery (synced : Bool) (s : NSrv) (b : Stamp) :
+    (∃ n e, (notifyAttached synced s b).cur = some n ∧ (notifyAttached synced s b).sent = s.sent ∧
+      n.attached.getLast? = some e ∧ e.hash = b.hash ∧ synced = true ∧ n.attached.length ≤ n.detached.length) ∨
+    (∃ n e, (notifyAttached synced s b).cur = none ∧ (notifyAttached synced s b).sent = s.sent ++ [n] ∧
+      n.attached.getLast? = some e ∧ e.hash = b.hash ∧ (synced = false ∨ n.detached.length < n.attached.length)) :=
+  notify_attached_last synced s b
+
+/-- The start-up with the server computes the same wallet as the plain start-up model. -/
+theorem C15_notifications_startup_proj (cfg : Cfg) (recW batch : Nat) (w : Wallet) (tip : BlockId) (during : List Ntfn) :
+    ((startupDuringN cfg recW batch w tip during).1.1, (startupDuringN cfg recW batch w tip during).2)
+      = startupDuring cfg recW batch w tip during :=
+  startupDuringN_proj cfg recW batch w tip during
+
+/-! Non-vacuity: the depth-2 reorg of `steps1` (wallet transaction 7 in block `[1]`, BlockConnected-before-RelevantTx
+    order).  Calls: attach `[1]`, attach `[2,1]`, detach `[2,1]`, detach `[1]`, attach `[3]`, attach `[4,3]`.  The
+    server delivered two notifications (the second one repeats block `[1]`, now with its transaction) and holds the
+    reorg pending: 2 attached blocks are not more than 2 detached ones. -/
+example : runEvents cfg1 (genesisWallet C1, []) steps1 =
+    [.attached (stampOf C1 [1]), .attached (stampOf C1 [2, 1]), .detached (some [2, 1]), .detached (some [1]),
+     .attached (stampOf C1 [3]), .attached (stampOf C1 [4, 3])] := by decide
+example : replayEv [] (runEvents cfg1 (genesisWallet C1, []) steps1) = some [4, 3] :=
+  (C15_notifications_follow_backend cfg1 (by decide) (inv_genesis cfg1 (by decide)) steps1_valid {}).2.1
+example : (evolveN cfg1 ((genesisWallet C1, {}), []) steps1).1.2.sent =
+      [{ attached := [⟨1, some [1], []⟩] }, { attached := [⟨1, some [1], [7]⟩, ⟨2, some [2, 1], []⟩] }] ∧
+    (evolveN cfg1 ((genesisWallet C1, {}), []) steps1).1.2.cur =
+      some { attached := [⟨1, some [3], []⟩, ⟨2, some [4, 3], []⟩], detached := [some [2, 1], some [1]] } := by decide
+/-- one more block and the reorg is delivered in one notification -/
+example : (evolveN cfg1 ((genesisWallet C1, {}), []) (steps1 ++ [.extend 5 .filtered])).1.2.sent.getLast? =
+      some { attached := [⟨1, some [3], []⟩, ⟨2, some [4, 3], []⟩, ⟨3, some [5, 4, 3], []⟩],
+             detached := [some [2, 1], some [1]] } := by decide
 
 end SyncTip
